@@ -146,7 +146,12 @@ class _Fold(ast.NodeTransformer):
             r = self.visit(s)
             if r is None:
                 continue
-            out += r if isinstance(r, list) else [r]
+            new = r if isinstance(r, list) else [r]
+            was_branch = isinstance(s, ast.If) and not (len(new) == 1 and new[0] is s)
+            out += new
+            # statements after an unconditional return / raise that a folded branch uncovered are unreachable
+            if was_branch and new and isinstance(new[-1], (ast.Return, ast.Raise, ast.Continue, ast.Break)):
+                break
         return out
 
     def generic_visit(self, node):
